@@ -244,3 +244,18 @@ func specMarkedAbandoned(p *chunkPayloadData) bool {
 
 //@ func Association.onRackTimeoutLocked
 //@   at store chunkPayloadData.retransmit assert#loss-found-by-rack-timer-cuts-the-window{C10} !stored || a.inFastRecovery
+
+// ---- C06: only chunks that are neither acknowledged nor abandoned are scheduled for retransmission ----
+
+//@ func Association.onPTOTimerLocked
+//@   loop 1 invariant#probe-candidate-is-live latest == nil || (!latest.acked && !latest.abandoned())
+//@   at store chunkPayloadData.retransmit assert#probe-is-neither-acked-nor-abandoned{C06} stored && latest != nil && !latest.acked && !latest.abandoned()
+
+//@ func payloadQueue.markAllToRetrasmit
+//@   at store chunkPayloadData.retransmit assert#only-live-chunks-are-marked{C06,C19} stored && !c.acked && !c.abandoned()
+
+//@ func Association.onRackAfterSACK
+//@   at store chunkPayloadData.retransmit assert#only-live-chunks-are-marked{C06} !chunk.acked && !chunk.abandoned() && chunk.nSent <= 1
+
+//@ func Association.onRackTimeoutLocked
+//@   at store chunkPayloadData.retransmit assert#only-live-chunks-are-marked{C06} !chunk.acked && !chunk.abandoned()
